@@ -110,6 +110,8 @@ class C05(core.Property):
           'in-domain content — half of it extreme finite float32 scores up to ~3e38 with mixed signs, whose '
           'per-example loss statistics are +inf —, batches without a mask feature, fully masked batches); stat cases = raw '
           'MeanStat/SumStat new/merge/reduce/result on dyadic values incl. values outside the domain; '
+          'monoid monitor = the real unreduced single-example statistics of the bundle merged directly (no-zero, '
+          'right, tree folds, swapped/regrouped operands, zero on either side, reduce of the stack); '
           'non-trivial = at least one real example and (more than one batch or a masked row); distinct by digest')
   TRUSTED = ['per-example statistics are taken from the real evaluate_example (under vmap, spot-checked '
              'against eager calls); the reference merge is re-implemented in numpy float64',
@@ -173,8 +175,18 @@ class C05(core.Property):
           base = rng.choice([s for s in specs if ml.is_per_position(s)])
           yield {'kind': 'pdpp', 'w': w, 'spec': ['pd', base, rng.choice([d for d in (1, 2, 3, 4, 5) if d != w['L']])],
                  'examples': [gen_example(rng, w) for _ in range(rng.randrange(1, 4))], 'size': rng.choice(sizes)}
-    for _ in range(n_stat):
-      yield self._stat_case(rng)
+    # stat cases: the model is asked once for all of them (one driver process instead of one per case)
+    stat_cases = [self._stat_case(rng) for _ in range(n_stat)]
+    lines = [l for c in stat_cases for l in self._stat_lines(c)]
+    ans = self.ctx.drv.ask(lines)
+    self._stat_answers = {core.case_digest(c): ans[4 * i:4 * i + 4] for i, c in enumerate(stat_cases)}
+    yield from stat_cases
+
+  @staticmethod
+  def _stat_lines(case):
+    stats = [[Fraction(a), Fraction(wt)] for a, wt in case['stats']]
+    return [line('c05.new', stats[0][0], stats[0][1]), line('c05.merge', stats[0], stats[1]),
+            line('c05.merge', stats[1], stats[2]), line('c05.reduce', stats[:case['n_reduce']])]
 
   def _eval_case(self, rng, w, specs, sizes):
     n = rng.choice([0, 1, 2, 3, 5, 8, 12, rng.randrange(0, 13)])
@@ -393,10 +405,12 @@ class C05(core.Property):
 
     # ---- per-row statistics from the real evaluate_example (vmapped over the rows of each batch;
     #      also for the padded rows, whose statistics every evaluation must ignore)
-    row_stats = []
+    row_stats, raw_stats = [], []
     for rows, mask, b in conc:
       feats = {k: jnp.asarray(v) for k, v in b.items() if k != cds.EXAMPLE_MASK_KEY}
-      row_stats.append({k: ml.stat_arrays(v) for k, v in per_example(feats).items()})
+      raw = per_example(feats)
+      raw_stats.append(raw)                      # the Stat objects themselves (dtypes as fedjax produced them)
+      row_stats.append({k: ml.stat_arrays(v) for k, v in raw.items()})
     srng = random.Random(case.get('junk_seed', 0) + 1)
     real_pos = [(bi, i) for bi, (rows, mask, _) in enumerate(conc) for i in range(len(rows))
                 if mask is None or mask[i]]
@@ -428,7 +442,12 @@ class C05(core.Property):
       problems.append(f'ModelEvaluator raised {exc_enum(e)}: {str(e)[:100]}')
     # evaluate_batch called directly on a few metrics, statistics merged by the real merge from zero()
     direct = {}
-    chosen = srng.sample(list(metrics), min(len(metrics), 4 if ctx.tier == 'quick' else 8))
+    if ctx.tier == 'quick' and len(metrics) > 6:
+      # a per-run fixed subset (jit compilations of evaluate_batch are per metric and batch size; every metric
+      # also goes through evaluate_batch inside evaluate_model / ModelEvaluator above)
+      chosen = random.Random(f'{ctx.seed}/{len(metrics)}').sample(list(metrics), 6)
+    else:
+      chosen = srng.sample(list(metrics), min(len(metrics), 8))
     for k in chosen:
       try:
         st = metrics[k].zero()
@@ -489,6 +508,10 @@ class C05(core.Property):
     model_batch = {(k, j): a for (what, k, j), a in zip(index, answers) if what == 'batch'}
     ctx.count('end_to_end_specs', len(model_e2e))
 
+    # the monoid monitor runs for every metric of the bundle on up to 4 of the real rows (~10 ms per metric)
+    mon_pos = srng.sample(real_pos, min(len(real_pos), 4))
+    monitored = set(metrics)
+
     # ---- compare
     for k, spec in enumerate(specs):
       k = str(k)
@@ -501,6 +524,13 @@ class C05(core.Property):
         continue
       leaves = [tuple(ml.lead_broadcast(a[i], shape) for a in row_stats[bi][k][1:]) for bi, i in real_pos]
       ra, rw, rres, absum = self._ref_merge(kind, leaves, shape)
+      # monoid monitor on the REAL unreduced single-example statistics (merged with each other directly)
+      if k in monitored and len(real_pos) >= 1:
+        pos = mon_pos
+        singles = [self.jax.tree_util.tree_map(lambda x, i=i: x[i], raw_stats[bi][k]) for bi, i in pos]
+        sl = [tuple(ml.lead_broadcast(a[i], shape) for a in row_stats[bi][k][1:]) for bi, i in pos]
+        problems.extend(self._monoid_monitor(metrics[k], name, kind, shape, loss, singles, sl))
+        ctx.count('monoid_monitor_metrics')
 
       def ok(v, ref, scale):
         if not np.isfinite(v):
@@ -585,6 +615,83 @@ class C05(core.Property):
     return Outcome(oracle_fail='; '.join(problems[:3]) or None, corr_fail='; '.join(corr[:3]) or None,
                    nontrivial=n_real > 0 and (len(conc) > 1 or masked_rows > 0), tags=tuple(tags), key=key,
                    detail=detail)
+
+  def _monoid_monitor(self, metric, name, kind, shape, loss, singles, leaves):
+    """Every way of merging the real single-example statistics `singles` (fedjax Stat objects exactly as
+    evaluate_example produced them) must equal the one-by-one merge, recomputed here in numpy from their
+    values: folds with and without zero(), right folds, balanced trees, swapped operands, regrouping,
+    zero on either side, and reduce() of the stacked statistics."""
+    jnp, jax = self.jnp, self.jax
+    n = len(singles)
+    out = []
+
+    def expect(idx):
+      return self._ref_merge(kind, [leaves[i] for i in idx], shape)
+
+    def check(how, st, idx):
+      ra, rw, rres, absum = expect(idx)
+      try:
+        sa = ml.stat_arrays(st)
+        acc = ml.lead_broadcast(sa[1], shape)
+        res = ml.lead_broadcast(np.asarray(st.result(), dtype=np.float64), shape)
+        wt = ml.lead_broadcast(sa[2], shape) if kind == 'mean' else None
+      except (ValueError, TypeError) as e:
+        out.append(f'{name}: {how}: {exc_enum(e)} {str(e)[:80]}')
+        return
+      tol_a = 1e-5 * absum + 1e-4 * np.abs(ra) + 1e-6 if loss else 0.0
+      rscale = absum / np.where(rw != 0, rw, 1) if kind == 'mean' else absum
+      tol_r = (1e-5 * rscale + 1e-4 * np.abs(rres) + 1e-6) if loss else 1e-6 * np.maximum(1.0, np.abs(rres))
+      bad = (not np.all(np.isfinite(res))) or np.any(np.abs(acc - ra) > tol_a) or np.any(np.abs(res - rres) > tol_r) \
+          or (kind == 'mean' and not np.array_equal(wt, rw))
+      if bad:
+        got = f'accum {acc.reshape(-1).tolist()[:4]}' + (f' weight {wt.reshape(-1).tolist()[:4]}' if kind == 'mean' else '') + \
+            f' result {res.reshape(-1).tolist()[:4]}'
+        want = f'accum {ra.reshape(-1).tolist()[:4]}' + (f' weight {rw.reshape(-1).tolist()[:4]}' if kind == 'mean' else '') + \
+            f' result {rres.reshape(-1).tolist()[:4]}'
+        out.append(f'{name}: {how} of {len(idx)} single-example statistics = {got}; merging them one by one '
+                   f'gives {want}')
+
+    def fold_left(sts, init=None):
+      acc = init
+      for st in sts:
+        acc = st if acc is None else acc.merge(st)
+      return acc
+
+    def fold_right(sts):
+      acc = sts[-1]
+      for st in reversed(sts[:-1]):
+        acc = st.merge(acc)
+      return acc
+
+    def tree(sts):
+      if len(sts) == 1:
+        return sts[0]
+      h = len(sts) // 2
+      return tree(sts[:h]).merge(tree(sts[h:]))
+
+    try:
+      zero = metric.zero()
+      allidx = list(range(n))
+      check('zero + s0 + s1 + …', fold_left(singles, zero), allidx)
+      check('zero + x', zero.merge(singles[0]), [0])
+      check('x + zero', singles[0].merge(zero), [0])
+      stacked = jax.tree_util.tree_map(lambda *xs: jnp.stack(xs), *singles)
+      check('reduce() of the stacked', stacked.reduce(), allidx)
+      if n >= 2:
+        check('s0 + s1 + … (no zero)', fold_left(singles), allidx)
+        check('s0 + (s1 + (…)) right fold', fold_right(singles), allidx)
+        check('balanced-tree merge', tree(singles), allidx)
+        check('(s0 + s1 + …) + zero', fold_left(singles).merge(zero), allidx)
+        check('zero + (right fold)', zero.merge(fold_right(singles)), allidx)
+        check('a + b', singles[0].merge(singles[1]), [0, 1])
+        check('b + a', singles[1].merge(singles[0]), [0, 1])
+      if n >= 3:
+        check('(a + b) + c', singles[0].merge(singles[1]).merge(singles[2]), [0, 1, 2])
+        check('a + (b + c)', singles[0].merge(singles[1].merge(singles[2])), [0, 1, 2])
+        check('(zero + a) + (b + c)', zero.merge(singles[0]).merge(singles[1].merge(singles[2])), [0, 1, 2])
+    except Exception as e:   # pylint: disable=broad-except
+      out.append(f'{name}: merging single-example statistics raised {exc_enum(e)}: {str(e)[:90]}')
+    return out[:2]
 
   @staticmethod
   def _frac(x, masked, name, problems):
@@ -699,9 +806,7 @@ class C05(core.Property):
     raw = [mk(a, wt) for a, wt in stats]
     s0, s1, s2 = raw[:3]
     n = case['n_reduce']
-    lines = [line('c05.new', stats[0][0], stats[0][1]), line('c05.merge', stats[0], stats[1]),
-             line('c05.merge', stats[1], stats[2]), line('c05.reduce', stats[:n])]
-    ans = ctx.drv.ask(lines)
+    ans = getattr(self, '_stat_answers', {}).get(core.case_digest(case)) or ctx.drv.ask(self._stat_lines(case))
     new0 = M.MeanStat.new(float(stats[0][0]), float(stats[0][1]))
     m01 = s0.merge(s1)
     m12 = s1.merge(s2)
